@@ -131,7 +131,10 @@ def check(spec):
         ud = np.asarray(sol.u_dot)
         la_g = np.asarray(sol.la_g)
         worst_eom, worst_acc = 0.0, 0.0
-        for k in range(nt):
+        # revisit the stored states backwards from the final one: the revolute joints' angle tracking is at the final
+        # state after the run, and actuators / force laws on joints read the tracked angle (a jump from the final state
+        # back to t0 would be taken for full rotations; this was finding F42 in the solver itself)
+        for k in reversed(range(nt)):
             M = D(system.M(t[k], q[k]))
             rhs = system.h(t[k], q[k], u[k]) + D(system.W_g(t[k], q[k])) @ la_g[k]
             if system.nla_c:
